@@ -9,9 +9,11 @@ import (
 
 // c13Operand returns a symbolic IntValue in normal form together with its exact value.
 // kind 0: machine-size (any int64); kind 1: big (|v| < 2^256, not an int64).
-func c13Operand(name string) (IntValue, *big.Int) {
+func c13Operand(name string) (IntValue, *big.Int) { return c13OperandBits(name, 256) }
+
+func c13OperandBits(name string, bits int) (IntValue, *big.Int) {
 	if nondetBool(name + ".isbig") {
-		b := nondetBig(name+".big", 256)
+		b := nondetBig(name+".big", bits)
 		assume(!b.IsInt64())
 		return IntValue{isbig: true, bigint: b}, new(big.Int).Set(b)
 	}
@@ -85,8 +87,9 @@ func Harness_C13_addsub() {
 
 // Harness_C13_divmod: DIV truncates toward zero, MOD takes the dividend's sign, zero divisor faults.
 func Harness_C13_divmod() {
-	a, A := c13Operand("a")
-	b, B := c13Operand("b")
+	// symbolic/symbolic big division is nonlinear: the big representation is bounded by param bigbits
+	a, A := c13OperandBits("a", param("bigbits"))
+	b, B := c13OperandBits("b", param("bigbits"))
 	isDiv := nondetBool("div")
 	if B.Sign() == 0 {
 		var err error
